@@ -688,6 +688,78 @@ func genCrashCase(i int) crashCase {
 	}
 }
 
+// systematic family: the canonical frame of every T-message in both dialects with its last k
+// bytes missing (size field adjusted, so the frame is complete but its body is short)
+func truncCases(all bool) []crashCase {
+	var out []crashCase
+	tkinds := []uint8{go9p.Tversion, go9p.Tauth, go9p.Tattach, go9p.Tflush, go9p.Twalk, go9p.Topen, go9p.Tcreate, go9p.Tread,
+		go9p.Twrite, go9p.Tclunk, go9p.Tremove, go9p.Tstat, go9p.Twstat}
+	for ti, k := range tkinds {
+		for d := 0; d < 2; d++ {
+			dotu := d == 1
+			ver := "9P2000"
+			if dotu {
+				ver = "9P2000.u"
+			}
+			for variant := 0; variant < 2; variant++ {
+				m := &gmsg{kind: k}
+				name := []byte("nm")
+				if variant == 1 {
+					name = []byte("a-longer-name")
+				}
+				switch k {
+				case go9p.Tversion:
+					m.a, m.s1 = 8192, []byte(ver)
+				case go9p.Tauth:
+					m.a, m.s1, m.s2, m.b = 7, name, name, 1
+				case go9p.Tattach:
+					m.a, m.b, m.s1, m.s2, m.c = 1, uint64(go9p.NOFID), name, name, 1
+				case go9p.Tflush:
+					m.a = 3
+				case go9p.Twalk:
+					m.a, m.b, m.names = 1, 2, [][]byte{name, name}[:1+variant]
+				case go9p.Topen:
+					m.a, m.b = 1, 0
+				case go9p.Tcreate:
+					m.a, m.s1, m.b, m.c, m.s2 = 1, name, 0644, 1, name
+				case go9p.Tread:
+					m.a, m.b, m.c = 1, 0, 10
+				case go9p.Twrite:
+					m.a, m.b, m.data = 1, 0, []byte("data")
+				case go9p.Tclunk, go9p.Tremove, go9p.Tstat:
+					m.a = 1
+				case go9p.Twstat:
+					m.a, m.dir = 1, go9p.Dir{Name: string(name), Uid: "u", Gid: "g", Muid: "m", Ext: string(name)}
+				}
+				f := ccFrame(m, dotu, 5)
+				if f == nil {
+					continue
+				}
+				var cuts []int
+				if all {
+					for c := 1; c <= len(f)-4; c++ {
+						cuts = append(cuts, c)
+					}
+				} else {
+					for _, c := range []int{1, 2, 3, 4, 5, 8, len(f) - 7, len(f) - 8} {
+						if c >= 1 && c <= len(f)-4 {
+							cuts = append(cuts, c)
+						}
+					}
+				}
+				for _, c := range cuts {
+					b := append([]byte{}, f[:len(f)-c]...)
+					binary.LittleEndian.PutUint32(b, uint32(len(b)))
+					target := []string{"scripted", "ufs", "auth"}[(ti+c)%3]
+					out = append(out, crashCase{target: target, kind: "truncated", frames: 2,
+						setup: [][]byte{ccFrame(&gmsg{kind: go9p.Tversion, a: 8192, s1: []byte(ver)}, dotu, go9p.NOTAG)}, input: b})
+				}
+			}
+		}
+	}
+	return out
+}
+
 func prepareTree(root string) {
 	os.MkdirAll(filepath.Join(root, "sub", "deep"), 0755)
 	os.WriteFile(filepath.Join(root, "f1"), []byte(strings.Repeat("0123456789", 500)), 0644)
@@ -781,8 +853,14 @@ func modeCrash(tier string, args []string) {
 	deaths := 0
 	w := bufio.NewWriter(io.Discard)
 	_ = w
-	for i := 0; i < ncases && deaths < 5; i++ {
-		cc := genCrashCase(i)
+	corpus := truncCases(tier == "thorough")
+	for i := 0; i < ncases+len(corpus) && deaths < 5; i++ {
+		var cc crashCase
+		if i < len(corpus) {
+			cc = corpus[i]
+		} else {
+			cc = genCrashCase(i - len(corpus))
+		}
 		// the victim file / tree may have been changed by earlier cases
 		if i%50 == 0 {
 			prepareTree(root)
